@@ -194,6 +194,22 @@ def sig_branching_self_reference(case):
                for st in case["steps"] if "merge" in st)
 
 
+def sig_huge_repeat(case):
+    """a `$repeat` somewhere and an integer >= 100000 somewhere (possibly reached through a reference): the requested
+    work is simply large; running out of the time budget on it is not a hang"""
+    def big(v):
+        if isinstance(v, bool):
+            return False
+        if isinstance(v, int):
+            return abs(v) >= 100000
+        if isinstance(v, dict):
+            return any(big(x) for x in v.values())
+        if isinstance(v, list):
+            return any(big(x) for x in v)
+        return False
+    return any("$repeat" in json.dumps(st["merge"]["data"]) and big(st["merge"]["data"]) for st in case["steps"] if "merge" in st)
+
+
 def library_run(rep, cases, known):
     ops = [to_op(c, i) for i, c in enumerate(cases)]
     go = run_go(ops, timeout_ms=10000, mem_mb=1500)
@@ -286,6 +302,9 @@ def run(rep):
     bad = library_run(rep, cases, known)
     open_sigs = {k["signature"]: k for k in known.get("open", []) if k.get("property") == PID}
     for c, g, m, kind in bad:
+        if kind in ("oom", "timeout") and sig_huge_repeat(c) and (m or {}).get("model_budget"):
+            rep.count("skipped: huge $repeat count (model exceeds its budget too)")
+            continue
         if "c08.branching_self_reference" in open_sigs and kind in ("oom", "timeout") and sig_branching_self_reference(c):
             rep.known_finding("KF-C08-1", f"{kind} instead of a circular-reference error (branching self-reference)")
             continue
